@@ -115,6 +115,33 @@ def marker_rules(facts, rep, w, prefix=None, only=None):
         n += 1
         rep.ob("R10.3", b.id, "%s: every successful path ends with the marker absent" % op, sets_ok, "" if sets_ok else
                "some successful path neither saw the marker absent nor removed it: the re-created entry stays hidden", b.span)
+    # ---- R10.3 for optional same-filesystem transfers the overlay may override (none today): whatever they create at the
+    # destination is a re-creation of that path, so its marker has to be gone on every successful return
+    for op in ("copy_file", "move_file", "move_dir"):
+        b = ov.ops.get(op)
+        if b is None:
+            continue
+        cb0 = ov.inter.code_body(b)
+        dest = lambda t: any(x[0] == "arg" and x[1] == 2 for x in walk(t))
+        sets_ok = True
+        for ct, gs0, bb in ov.inter.ret_cases(b):
+            if ov.inter.case_polarity(ct) == "err":
+                continue
+            sets = ov.path_guard_sets(cb0, bb)
+            if sets is None:
+                sets_ok = False
+                continue
+            for gs in sets:
+                nomark = any(g[0] == "bool" and g[2] is False and peel(g[1])[0] == "call" and sname(peel(g[1])[1]) == "exists" and
+                             peel(g[1])[2] and ov.is_marker(peel(g[1])[2][0]) and dest(peel(g[1])[2][0]) for g in gs)
+                removed = any(g[0] == "variant" and g[2] == "ok" and peel(g[1])[0] == "call" and sname(peel(g[1])[1]) == "remove_file" and
+                              peel(g[1])[2] and ov.is_marker(peel(g[1])[2][0]) and dest(peel(g[1])[2][0]) for g in gs)
+                if not (nomark or removed):
+                    sets_ok = False
+        n += 1
+        rep.ob("R10.3", b.id, "%s: every successful path ends with the destination's marker absent" % op, sets_ok, "" if sets_ok else
+               "the overlay's own %s can succeed without the destination's whiteout marker being absent or removed: copying / moving "
+               "onto a path that was removed through the overlay returns Ok but the result stays hidden" % op, b.span)
     # ---- R10.2 exists consults the marker first
     b = ov.ops.get("exists")
     if b is None:
@@ -226,6 +253,7 @@ def run(facts, rep, tier, ctx):
     rep.floor("marker protocol obligations", n, 20)
     # R10.4 / R10.7 shared with C09
     c09.listing_rules(facts, rep, ws, rule="R10.4")
+    c09.relative_join_rules(facts, rep, ws, rule="R10.9")
     c09.table_u(facts, rep, ws, rule="R10.7", only=("remove_dir",))
     # R10.8 removing a subtree goes through the path layer's remove_dir_all: children must be dispatched by their own type
     # (remove_file on a lower-only directory would hide it with one marker and leave its content to resurface), the
@@ -250,6 +278,7 @@ def run(facts, rep, tier, ctx):
         A = _Prefixed(rep, "A")
         k = marker_rules(facts, A, wa)
         k += c09.listing_rules(facts, A, wa, rule="R10.4")
+        k += c09.relative_join_rules(facts, A, wa, rule="R10.9")
         k += c09.table_u(facts, A, wa, rule="R10.7", only=("remove_dir",))
         rep.floor("async overlay marker obligations", k, 30)
     rep.assume("the reserved names ('.whiteout', '*_wo') are not used by callers (excluded by the property)")
